@@ -33,6 +33,12 @@ def layouts(tier):
         m([['%define ', N2], ['k1 [$', N2, ']']]),
         m([['%define ', N1, '  ', D1, ' ', D1, ' '], ['k1 $', N1]]),
         m([['%define ', N1, ' ', D3]]),
+        # a '$' construct in the NAME token of a define; values that start with a reference to an empty
+        # definition; a define whose whole argument is references to empty definitions
+        m([['%define ', N1, ' ', N1], ['%define ', ['d', 2], ' v'], ['k1 $', ['ref', 0, 1]]]),
+        m(['%define e', ['%define a ${e} ', D1], ['%define a ', ['ref', 1, 1]], 'k1 [$a]']),
+        m([['%define ', N1], ['%define $', N1], ['k1 x']]),
+        m([['%define ', N1], ['%define ${', ['ref', 0, 1], '} $', ['ref', 0, 1]], ['k1 x']]),
         # any character (non-ASCII letters and digits included) inside a name and right behind a reference
         m([['%define ', N1, ['x', 1], ' ', D1], ['k1 $', ['ref', 0, 1], ['ref', 0, 2]]]),
         m([['%define ', N1, ' v'], ['k1 $', ['ref', 0, 1], ['x', 1], ' ${', ['ref', 0, 1], '}', ['x', 1]]]),
